@@ -5,6 +5,7 @@ Imports only the (Mathlib-free) models, so it links as a `lean_exe`.
 import Driver.Text
 import Aldrin.Model.Msg
 import Aldrin.Model.Packetizer
+import Driver.BrokerCmd
 
 namespace Aldrin.Driver
 open Aldrin
@@ -159,27 +160,34 @@ def ioCmd (cmd : String) (args : List String) : Option String :=
     tpCmd (← ofHex h) script ops
   | _, _ => none
 
-def step (line : String) : String :=
+structure DState where
+  broker : BState := {}
+  deriving Inhabited
+
+def step (ds : DState) (line : String) : DState × String :=
   match (line.trimAscii.toString.splitOn " ").filter (· ≠ "") with
-  | [] => "bad-op"
+  | [] => (ds, "bad-op")
   | cmd :: args =>
     match codecCmd cmd args with
-    | some out => out
+    | some out => (ds, out)
     | none => match msgCmd cmd args with
-      | some out => out
+      | some out => (ds, out)
       | none => match ioCmd cmd args with
-        | some out => out
-        | none => "bad-op"
+        | some out => (ds, out)
+        | none => match brokerCmd ds.broker cmd args with
+          | some (b, out) => ({ ds with broker := b }, out)
+          | none => (ds, "bad-op")
 
-partial def loop (h : IO.FS.Stream) (out : IO.FS.Stream) : IO Unit := do
+partial def loop (h : IO.FS.Stream) (out : IO.FS.Stream) (ds : DState) : IO Unit := do
   let line ← h.getLine
   if line.isEmpty then return ()
-  out.putStrLn (step line)
-  loop h out
+  let (ds, txt) := step ds line
+  out.putStrLn txt
+  loop h out ds
 
 end Aldrin.Driver
 
 def main : IO Unit := do
   let stdin ← IO.getStdin
   let stdout ← IO.getStdout
-  Aldrin.Driver.loop stdin stdout
+  Aldrin.Driver.loop stdin stdout {}
